@@ -15,7 +15,7 @@ ID = "C04"
 RULE = ("hist: random histories (4-25 ops: put/touch/get/DELETE/trash-list item with exact, off-by-one-ns, other-volume "
         "and unrelated mtimes and with/without mount uuid/untrash/empty-trash/tick/bad-body/unauthenticated) over 3 hashes "
         "on 1-2 Directory volumes (writable/read-only, Serialize on/off), TTL 0-8 units, trash lifetime 0-4 units, "
-        "BlobTrash on/off, read-only volumes of both kinds (Volumes.*.ReadOnly and AccessViaHosts.<url>.ReadOnly), DELETE of copies "
+        "BlobTrash on/off, full volumes (IsFull marker), read-only volumes of both kinds (Volumes.*.ReadOnly and AccessViaHosts.<url>.ReadOnly), DELETE of copies "
         "half a second younger / older than the TTL, planted intact/corrupt copies and trash entries of arbitrary age; non-trivial = the history "
         "removes or restores at least one copy. race: schedules of P in {TOUCH, PUT} against T in {DELETE, TrashItem, untrash request} on "
         "one block for Serialize in {0,1}, lifetime in {0,>0}, pre-existing copy in {absent, intact, corrupt}, age in "
@@ -165,7 +165,8 @@ def _gen_hist_one(rng):
     vols = []
     for _ in range(nvol):
         # w = writable, r = Volumes.*.ReadOnly, a = read-only for this server through AccessViaHosts
-        vols.append(rng.choice("wwwwwwwwwwwwwwwrrraa") + rng.choice("sn"))
+        # optional third character f = the volume reports itself full (IsFull marker): WriteBlock refuses
+        vols.append(rng.choice("wwwwwwwwwwwwwwwrrraa") + rng.choice("sn") + ("f" if rng.random() < 0.15 else ""))
     hs = ["h0", "h1", "h2"][:rng.choice([1, 2, 2, 3])]
     init, seen = [], set()
     for _ in range(rng.choice([0, 1, 2, 3, 4, 5])):
@@ -229,6 +230,7 @@ MALFORMED = [
     "hist 3 2 1 1 wn - put:h9",
     "hist 3 2 1 1 wn - put:x0",
     "hist 3 2 1 1 wq - put:h0",
+    "hist 3 2 1 1 wnx - put:h0",
     "hist 3 2 2 1 wn - put:h0",
     "hist 3 2 1 1 wn,wn,wn - put:h0",
     "hist 3 2 1 1 wn 0:h0:z:3 put:h0",
@@ -360,6 +362,7 @@ def oracle(case, impl):
     c, steps, t_end = w
     ttl, life = c["ttl"], c["life"]
     ro = [v[0] != "w" for v in c["vols"]]
+    full = [v.endswith("f") for v in c["vols"]]
     planted_corrupt = {it.split(":")[1] for it in c["init"] if it.split(":")[2] == "c"}
     ack = {}
     for i, p, r, t, before, after in steps:
@@ -378,6 +381,10 @@ def oracle(case, impl):
         if op == "get" and h in ack and t < ack[h] + ttl:
             if r == "404" or (h not in planted_corrupt and r != "200"):
                 return "op %d: GET %s -> %s at t=%d although acknowledged at t=%d and TTL=%d" % (i, h, r, t, ack[h], ttl)
+        if op == "put" and r == "200" and all(a or b for a, b in zip(ro, full)):
+            # every writable volume is full: a PUT can only be acknowledged through compare-and-touch
+            if not any(h in vb and vb[h][0] == "g" for vi, (vb, _) in enumerate(before) if not ro[vi]):
+                return "op %d: PUT %s acknowledged although every writable volume is full and none held an intact copy" % (i, h)
         if op in ("put", "touch") and r == "200":
             ack[h] = t
             if not any(h in vb and vb[h][1] == 0 for vb, _ in after):
